@@ -63,8 +63,14 @@ func c15EnvironmentPass(c *core.Ctx) {
 	}
 	crypto.RegisterHash(id, c15scriptedNew)
 	// before the hash is "linked in": every use of the constructor panics; afterwards the same Hasher must work
+	var early *merkle.Hasher
+	core.Catch(func() { early = merkle.NewHasher(id) }) // built while the hash is still available
 	c15script.down = true
-	early := merkle.NewHasher(id)
+	if early == nil {
+		c.Set("environment_pass", "NewHasher failed for the scripted hash: skipped")
+		c15script.down = false
+		return
+	}
 	for _, f := range []func(){func() { early.EmptyRoot() }, func() { early.Hash(nil) }, func() { early.Hash([]encoding.BinaryMarshaler{c15leafB("x")}) }, func() { early.Size() }} {
 		func() { defer func() { recover() }(); f() }()
 	}
@@ -79,7 +85,16 @@ func c15EnvironmentPass(c *core.Ctx) {
 		return wants[n]
 	}
 	// run executes one history on hasher hs with the given failing constructor calls; returns the number of constructor calls
-	run := func(hs *merkle.Hasher, hist []int, fail map[int]bool, label string) int {
+	run := func(mk func() *merkle.Hasher, hist []int, fail map[int]bool, label string) int {
+		// the Hasher is built while the constructor works (an implementation may use it already in NewHasher)
+		c15script.Lock()
+		c15script.calls, c15script.fail = 0, nil
+		c15script.Unlock()
+		var hs *merkle.Hasher
+		if pn := core.Catch(func() { hs = mk() }); pn != nil || hs == nil {
+			c.Violate("C15/environment/new-hasher-panics", fmt.Sprintf("NewHasher panicked although the hash is available: %v", pn), nil, "", nil)
+			return 0
+		}
 		c15script.Lock()
 		c15script.calls, c15script.fail = 0, fail
 		c15script.Unlock()
@@ -154,23 +169,30 @@ func c15EnvironmentPass(c *core.Ctx) {
 	}
 	// the Hasher that was used before the registration
 	for oi := range ops {
-		run(early, []int{oi}, nil, "Hasher first used before crypto.RegisterHash")
+		run(func() *merkle.Hasher { return early }, []int{oi}, nil, "Hasher first used before crypto.RegisterHash")
 	}
-	shared := merkle.NewHasher(id)
+	var shared *merkle.Hasher
+	fresh := func() *merkle.Hasher { return merkle.NewHasher(id) }
+	theShared := func() *merkle.Hasher {
+		if shared == nil {
+			shared = merkle.NewHasher(id)
+		}
+		return shared
+	}
 	var hists, runs int64
 	var rec func(hist []int)
 	rec = func(hist []int) {
 		if len(hist) > 0 {
 			hists++
-			total := run(merkle.NewHasher(id), hist, nil, "fresh Hasher")
+			total := run(fresh, hist, nil, "fresh Hasher")
 			runs++
 			for p := 0; p < total; p++ {
-				run(merkle.NewHasher(id), hist, map[int]bool{p: true}, "fresh Hasher")
-				run(shared, hist, map[int]bool{p: true}, "one Hasher used by all histories")
+				run(fresh, hist, map[int]bool{p: true}, "fresh Hasher")
+				run(theShared, hist, map[int]bool{p: true}, "one Hasher used by all histories")
 				runs += 2
 				if c.Thorough() && len(hist) <= 2 {
 					for q := p + 1; q < total; q++ {
-						run(merkle.NewHasher(id), hist, map[int]bool{p: true, q: true}, "fresh Hasher")
+						run(fresh, hist, map[int]bool{p: true, q: true}, "fresh Hasher")
 						runs++
 					}
 				}
